@@ -49,6 +49,7 @@ def run(repo: Repo, chk: Check) -> None:
     nest(repo, chk)
     seed_extent(repo, chk)
     lccb_static(repo, chk)
+    layout_offset(repo, chk)
 
 
 # --------------------------------------------------------------------------- helpers
@@ -802,3 +803,43 @@ def lccb_static(repo: Repo, chk: Check) -> None:
                f"the running extent `{cur}` never becomes None while the search continues ({n_sites} site(s))",
                f"`{cur} = None` at line(s) {bad} and the search continues: strides with dynamic steps then compare equal to the running extent and join the "
                "'contiguous' block (memref<?x?xi32, strided<[?, 1]>> on both sides is lowered to one 1-D transfer although the run-time row pitches may differ)")
+
+
+# --------------------------------------------------------------------------- reconstructed layouts keep the memref's offset
+def layout_offset(repo: Repo, chk: Check) -> None:
+    chk.rule(
+        "C05.layout-offset",
+        "every tiled-strided layout reconstructed from a strided / plain memref type (TiledStridedLayout.from_strides) is given the offset of "
+        "that same memref type (from_strides defaults to offset 0: an omitted offset silently drops the operand's offset from the copy)",
+        floor=2,
+    )
+    n = 0
+    for f in _funcs(repo):
+        fl = Flow(f, repo)
+        for s in fl.calls("from_strides"):
+            if not s.reachable:
+                continue
+            c = s.node
+            assert isinstance(c, ast.Call)
+            n += 1
+            chk.analysed(f.key)
+            strides = kwarg(c, "strides", 0)
+            off = kwarg(c, "offset", 2)
+            key = f"{PASS}:{f.qualname}:from_strides#{n}"
+            if strides is None:
+                chk.bad("C05.layout-offset", key, s.where(), "from_strides without a strides argument")
+                continue
+            sc = fl.cone(strides, s, inline=0)
+            types = [ast.unparse(norm.primary(m["t"])) for _, m in norm.find(T("extract_strides($t)"), sc)]
+            if off is None:
+                chk.bad("C05.layout-offset", key, s.where(),
+                        f"the layout is rebuilt from the strides of {types or '?'} without its offset: a strided operand with a non-zero (or dynamic) offset is "
+                        "copied from/to the unshifted base pointer")
+                continue
+            oc = fl.cone(off, s, inline=0)
+            otypes = [ast.unparse(norm.primary(m["t"])) for _, m in norm.find(T("extract_offset($t)"), oc)]
+            same = bool(types) and bool(otypes) and set(otypes) <= set(types) | set(otypes) and any(t in types for t in otypes)
+            chk.result(same, "C05.layout-offset", key, s.where(), f"strides and offset both come from {sorted(set(types))}",
+                       f"the layout takes its strides from {types} but its offset from {otypes or ast.unparse(off)}")
+    if n < 2:
+        raise AnalysisError(f"only {n} from_strides call(s) found in {PASS}")
